@@ -30,6 +30,9 @@ struct Msg {
     /// recv: send this one in pass-through form / as a tick instead
     #[serde(default)]
     form: String,
+    /// recv: idle time before this message
+    #[serde(default)]
+    gap_ms: u32,
 }
 
 #[derive(Clone, Debug, Serialize, Deserialize, Default)]
@@ -41,6 +44,9 @@ struct Plan {
     /// size of the atom universe: small => heavy re-use across messages
     #[serde(default)]
     universe: u32,
+    /// recv: the connection's I/O timeout (0 = one hour); idle gaps beyond it occur between frames
+    #[serde(default)]
+    conn_timeout_ms: u64,
     #[serde(default)]
     client: EndCfg,
     #[serde(default)]
@@ -114,10 +120,13 @@ impl Scenario for C14 {
             latency_ms: *r.pick(&[0, 1, 5]),
             max_delay_ms: *r.pick(&[0, 1, 5]),
         };
-        let n = r.range(1, if send { 8 } else { 30 }) as usize;
+        // a few long histories: hundreds of messages, each introducing fresh atoms, so that far more
+        // entries are created and overwritten than the cache has slots while a few atoms stay hot
+        let long = !send && r.chance(1, 25);
+        let n = if long { r.range(300, 600) as usize } else { r.range(1, if send { 8 } else { 30 }) as usize };
         let msgs: Vec<Msg> = (0..n)
             .map(|_| Msg {
-                n_atoms: match r.below(12) {
+                n_atoms: if long { r.range(3, 9) as u32 } else { match r.below(12) {
                     0 => 0,
                     1 => 1,
                     2 => 2,
@@ -125,17 +134,34 @@ impl Scenario for C14 {
                     4 if send => *r.pick(&[256u32, 257, 300]),
                     5 => r.range(100, 255) as u32,
                     _ => r.range(0, 12) as u32,
-                },
+                } },
                 long_len: match r.below(8) {
                     0 => *r.pick(&[256u32, 257, 1000]),
                     1 => *r.pick(&[254u32, 255]),
                     _ => 0,
                 },
                 seed: r.next_u64(),
-                form: if send { String::new() } else { (*r.pick(&["hdr", "hdr", "hdr", "hdr", "hdr", "hdr", "pt", "tick", "hdr_bad"])).to_string() },
+                form: if send { String::new() } else if long { "hdr".to_string() } else { (*r.pick(&["hdr", "hdr", "hdr", "hdr", "hdr", "hdr", "pt", "tick", "hdr_bad"])).to_string() },
+                gap_ms: 0,
             })
             .collect();
-        let p = Plan { kind: if send { "send" } else { "recv" }.to_string(), msgs, universe: *r.pick(&[8u32, 40, 400, 3000]), client: end(r), server: end(r), salt: r.next_u64() };
+        let mut p = Plan { kind: if send { "send" } else { "recv" }.to_string(), msgs, universe: if long { 1_000_000 } else { *r.pick(&[8u32, 40, 400, 3000]) }, conn_timeout_ms: 0, client: end(r), server: end(r), salt: r.next_u64() };
+        if long {
+            p.client = EndCfg::default();
+            p.server = EndCfg::default();
+        }
+        if !send && !long && r.chance(1, 6) {
+            // the peer goes idle for longer than the connection's I/O timeout between messages;
+            // the caller keeps receiving; a frame always arrives whole
+            p.conn_timeout_ms = *r.pick(&[300u64, 2_000]);
+            p.client = EndCfg { chunking: p.client.chunking, ..Default::default() };
+            p.server = EndCfg { chunking: p.server.chunking, ..Default::default() };
+            for m in p.msgs.iter_mut() {
+                if r.chance(1, 2) {
+                    m.gap_ms = (p.conn_timeout_ms * *r.pick(&[1u64, 2, 4])) as u32 + r.below(40) as u32;
+                }
+            }
+        }
         serde_json::to_value(p).unwrap()
     }
 
@@ -144,7 +170,7 @@ impl Scenario for C14 {
             Ok(p) => p,
             Err(_) => return RunOutput::default(),
         };
-        if p.msgs.is_empty() || p.msgs.len() > 64 || p.msgs.iter().any(|m| m.n_atoms > 400 || m.long_len > 5000) {
+        if p.msgs.is_empty() || p.msgs.len() > 700 || p.msgs.iter().any(|m| m.n_atoms > 400 || m.long_len > 5000) {
             return RunOutput::default();
         }
         let world = World::new(tape, keep, p.salt);
@@ -166,7 +192,7 @@ impl Scenario for C14 {
             components_stubbed: &["TCP (SimNet)", "EPMD (stub)", "remote node: sender-side atom cache model + independent header writer/reader"],
             assumptions: &["any slot assignment by the sender conforms (the receiver must follow the header); real OTP picks the slot by atom hash", "the order of atoms in this library's own header is seeded through hook H11"],
             fault_prefixes: &["fault.", "net."],
-            expected_probes: &["probe.c14.old_entry_referenced", "probe.c14.slot_overwritten", "probe.c14.segment_above_zero", "probe.c14.segment_seven", "probe.c14.position_differs_from_slot", "probe.c14.long_atoms_even_count", "probe.c14.long_atoms_odd_count", "probe.c14.own_header_read", "probe.c14.own_header_long_atoms", "probe.c14.echo_decoded", "probe.c14.too_many_atoms_rejected", "probe.c14.header_255_atoms", "probe.c14.failed_frame_with_intact_header"],
+            expected_probes: &["probe.c14.old_entry_referenced", "probe.c14.slot_overwritten", "probe.c14.segment_above_zero", "probe.c14.segment_seven", "probe.c14.position_differs_from_slot", "probe.c14.long_atoms_even_count", "probe.c14.long_atoms_odd_count", "probe.c14.own_header_read", "probe.c14.own_header_long_atoms", "probe.c14.echo_decoded", "probe.c14.too_many_atoms_rejected", "probe.c14.header_255_atoms", "probe.c14.failed_frame_with_intact_header", "probe.c14.long_history", "probe.c06.idle_timeout_retried"],
         }
     }
 }
@@ -186,13 +212,13 @@ async fn recv_dir(w: &Arc<World>, p: &Plan) {
                 for (k, m) in p2.msgs.iter().enumerate() {
                     let mut r = Rng::new(m.seed ^ 0x14);
                     if m.form == "tick" {
-                        frames.push((wire::frame4(&[]), 0u32));
+                        frames.push((wire::frame4(&[]), m.gap_ms));
                         continue;
                     }
                     let control = Val::tuple(vec![Val::int(2), Val::atom(""), wire::gen_pid(&mut r, Some(SUT_NAME))]);
                     let payload = Val::tuple(vec![Val::int(k as i128), payload_for(m, p2.universe)]);
                     if m.form == "pt" {
-                        frames.push((wire::frame4(&wire::pass_through(&control, Some(&payload))), 0));
+                        frames.push((wire::frame4(&wire::pass_through(&control, Some(&payload))), m.gap_ms));
                         expect.push(Expect::Ok(control, Some(payload), "pass-through"));
                         continue;
                     }
@@ -212,27 +238,31 @@ async fn recv_dir(w: &Arc<World>, p: &Plan) {
                         let hdr_len = wire::write_header_body(&refs).len();
                         let full = wire::with_dist_header(&control, None, &refs);
                         let keep = 2 + hdr_len + ((full.len() - 2 - hdr_len) / 2).max(1);
-                        frames.push((wire::frame4(&full[..keep]), 0));
+                        frames.push((wire::frame4(&full[..keep]), m.gap_ms));
                         expect.push(Expect::Err("intact header, truncated terms".to_string()));
                         w.stat("probe.c14.failed_frame_with_intact_header");
                         continue;
                     }
-                    frames.push((wire::frame4(&wire::with_dist_header(&control, Some(&payload), &refs)), 0));
+                    frames.push((wire::frame4(&wire::with_dist_header(&control, Some(&payload), &refs)), m.gap_ms));
                     expect.push(Expect::Ok(control, Some(payload), "distribution header"));
+                    if p2.msgs.len() >= 300 && k == p2.msgs.len() - 1 {
+                        w.stat("probe.c14.long_history");
+                    }
                 }
                 *script2.lock().unwrap() = Some(expect);
                 Box::pin(send_script(conn, frames))
             },
         );
     }
-    let Some(mut conn) = connect_client(w, true, true).await else { return };
+    let conn = if p.conn_timeout_ms > 0 { crate::scen::c06::connect_client_with_timeout(w, true, true, p.conn_timeout_ms).await } else { connect_client(w, true, true).await };
+    let Some(mut conn) = conn else { return };
     let n = loop {
         if let Some(e) = script.lock().unwrap().as_ref() {
             break e.len();
         }
         tokio::time::sleep(Duration::from_millis(1)).await;
     };
-    let results: Vec<Got> = receive_all(&mut conn, n + 1).await;
+    let results: Vec<Got> = if p.conn_timeout_ms > 0 { crate::scen::c06::receive_all_retrying_idle_timeouts(w, &mut conn, n + 1).await } else { receive_all(&mut conn, n + 1).await };
     for (i, r) in results.iter().enumerate() {
         w.ev(format!("recv {} -> {}", i, if r.is_ok() { "Ok".to_string() } else { format!("Err {}", r.as_ref().unwrap_err().chars().take(60).collect::<String>()) }));
     }
